@@ -196,7 +196,16 @@ def process_attribs_item(prop="C04"):
     c.hints["dict_list_elem"] = "str"
     c.param("self", TRef("FortranCodeUnit"))
     c.param("item", TRef("FortranBase"))
-    c.param("named", TList("str"))
+    # the block's third input is the function's list of handled names - whatever the code calls it: the list that `item.name.lower()` is appended to in the block
+    import ast as _ast
+    try:
+        _fn = loader.find_def("ford.sourceform", "FortranCodeUnit.process_attribs")
+        NM = next((n.func.value.id for n in _ast.walk(_fn) if isinstance(n, _ast.Call) and isinstance(n.func, _ast.Attribute) and n.func.attr == "append"
+                   and isinstance(n.func.value, _ast.Name) and n.args and _ast.unparse(n.args[0]) == "item.name.lower()"), "named")
+    except Exception:
+        NM = "named"
+    c.param(NM, TList("str"))
+    named = lambda v: getattr(v, NM)
     E = lambda v: V(v._e, v._e.entry)
 
     def setup(eng, path):
@@ -224,7 +233,7 @@ def process_attribs_item(prop="C04"):
         d = adict(v)
         lid = z3.Select(v.heap.dict_val(d), key(v))
         at = sel(H(v, "attribs"), owner(v))
-        nid = v.val("named").id
+        nid = v.val(NM).id
         return z3.And(v.item != v.self, at > 0, at < a0, nid != at, z3.Implies(z3.Select(v.heap.dict_has(d), key(v)), z3.And(lid > 0, lid < a0, lid != at, lid != nid)),
                       sel(H(v, "attr_dict"), v.self) > 0, proc_of(v) != v.item)
     c.requires("shape", req)
@@ -235,7 +244,7 @@ def process_attribs_item(prop="C04"):
                                                                z3.And(z3.Select(v.heap.dict_has(adict(E(v))), key(E(v))),
                                                                       z3.Select(v.heap.dict_val(adict(E(v))), key(E(v))) == z3.Select(E(v).heap.dict_val(adict(E(v))), key(E(v))),
                                                                       v.heap.list_get(SList(z3.Select(E(v).heap.dict_val(adict(E(v))), key(E(v))), "str")) == attrs0(E(v))))),
-        ("frame", lambda v: z3.And(v.it.seq == attrs0(E(v)), v.named == E(v).named, H(v, "attribs") == H(E(v), "attribs"), H(v, "procedure") == H(E(v), "procedure"), H(v, "name") == H(E(v), "name"),
+        ("frame", lambda v: z3.And(v.it.seq == attrs0(E(v)), named(v) == named(E(v)), H(v, "attribs") == H(E(v), "attribs"), H(v, "procedure") == H(E(v), "procedure"), H(v, "name") == H(E(v), "name"),
                                    H(v, "attr_dict") == H(E(v), "attr_dict"), z3.Select(v._e.has_array(v._p, "bindC"), E(v).item) == z3.Select(E(v)._e.has_array(E(v)._p, "bindC"), E(v).item))),
     ], unfold=lambda v: _pa_unfold(v.it.seq, v.k, perm0(E(v)), takes_bind(E(v))), variant=lambda v: z3.Length(v.it.seq) - v.k)
     c.post_facts = lambda v0: [LASTACC(attrs0(v0), 0, perm0(v0)) == perm0(v0), OTHERS(attrs0(v0), 0, takes_bind(v0)) == z3.Empty(SI)]
@@ -250,7 +259,7 @@ def process_attribs_item(prop="C04"):
     # recorded for the name stays available to the next entity of that name; the name is noted for removal after the loop
     def kept(v0, res, v1):
         d0, d1 = adict(v0), adict(v1)
-        n0, n1 = v0.named, v1.named
+        n0, n1 = named(v0), named(v1)
         present = z3.Select(v0.heap.dict_has(d0), key(v0))
         return z3.And(z3.Implies(present, z3.And(z3.Select(v1.heap.dict_has(d1), key(v0)),
                                                  v1.heap.list_get(SList(z3.Select(v1.heap.dict_val(d1), key(v0)), "str")) == attrs0(v0))),
